@@ -41,6 +41,7 @@ TGcCall  == IsEv("gc_call") /\ GcCall
 TLocal   == IsEv("k8s_localpods") /\ LocalPods(Rng(Log[l].live), Log[l].err)
 TExist   == IsEv("k8s_podexist") /\ LET x == Log[l] IN PodExist(x.p, x.exist, x.err, x.cons)
 TGcRet   == IsEv("gc_ret") /\ GcRet(Log[l].err)
+TGcLoop  == IsEv("gcloop") /\ GcLoop(Log[l].alive)
 TObs     == IsEv("obs") /\ LET x == Log[l] IN Obs(DiskOf(x.disk), DiskOf(x.mem), OwnOf(x.own), CloudOf(x.cloud))
 TCrash   == IsEv("crash") /\ Crash
 TRestart == IsEv("restart") /\ LET x == Log[l] IN Restart(DiskOf(x.disk), DiskOf(x.mem), OwnOf(x.own))
@@ -48,7 +49,7 @@ TProbe   == IsEv("probe") /\ LET x == Log[l] IN Probe(DiskOf(x.disk), OwnOf(x.ow
 
 TInit == Init /\ l = 1
 TNext == TReset \/ TSkip \/ TEnvPod \/ TDetach \/ TApiErr \/ TDisturb \/ TCloud \/ TCall \/ TGetPod \/ TPutB \/ TDelB \/ TWrEnd
-         \/ TRawPut \/ TRawDel \/ TRet \/ TGcCall \/ TLocal \/ TExist \/ TGcRet \/ TObs \/ TCrash \/ TRestart \/ TProbe
+         \/ TRawPut \/ TRawDel \/ TRet \/ TGcCall \/ TLocal \/ TExist \/ TGcRet \/ TGcLoop \/ TObs \/ TCrash \/ TRestart \/ TProbe
 TSpec == TInit /\ [][TNext]_<<vars, l>>
 
 HighWater == IF l > TLCGet(1) THEN TLCSet(1, l) ELSE TRUE
